@@ -1011,6 +1011,26 @@ val parse_num : n list -> n option -> n option * n list
 
 val unmarshal_json : n list -> (n * n) option
 
+type edump = { d_ents : ent list; d_next : nat; d_avail : nat }
+
+val pool_dump : pool -> edump
+
+val pool_load : pool -> edump -> pool option
+
+val pstep : (pool * ent list) -> (z * z) -> pool * ent list
+
+val prun : (z * z) list -> pool * ent list
+
+val zpairs : z list -> (z * z) list
+
+val pgets : nat -> pool -> ent list
+
+val b2z : bool -> z
+
+val ent2z : ent -> z list
+
+val dumpload_case : z list -> z list
+
 val row_ent : table -> nat -> ent
 
 val loc : w -> ent -> (nat * nat) option
